@@ -88,8 +88,17 @@ func getHistoricalFilePaths(current string, storage Storage) ([]string, error) {
 	if err != nil && !os.IsNotExist(err) {
 		return nil, err
 	}
-	filenames := make([]string, 1, len(history)+1)
-	filenames[0] = current
+	filenames := make([]string, 0, len(history)+1)
+	// The current file comes first. If it has been destroyed while rotated keys remain, the rotated keys
+	// are still good for decryption, so return only them. With no history at all keep naming the current
+	// file so that readers report the missing key as they always did.
+	currentExists, err := storage.Exists(current)
+	if err != nil {
+		return nil, err
+	}
+	if currentExists || len(history) == 0 {
+		filenames = append(filenames, current)
+	}
 	// ReadDir() returns directory content in lexicographically sorted order. History files
 	// have current time as a suffix so we need to reverse the order to move through them
 	// from newest to oldest.
